@@ -87,6 +87,7 @@ package vss
 //@   requires forall k in 0..len(shares) :: (shares[k] != nil && shares[k].ID != nil && shares[k].Share != nil)
 //@   requires [distinct-ids] forall a, b in 0..len(shares) :: (a != b ==> gcd((val(shares[a].ID) - val(shares[b].ID)) % curveN(ec), curveN(ec)) == 1)
 //@   ensures err == nil ==> secret != nil
+//@   site (*common.modInt).Sub#0 : [C15.lagrange-denominator-is-xj-minus-xi] $arg1 == xs[j] && $arg2 == share.ID && j != i
 //@   loop 0 invariant fresh(xs) && len(xs) == $iter && (forall k in 0..$iter :: xs[k] == shares[k].ID)
 //@   loop 1 invariant fresh(xs) && len(xs) == len(shares) && (forall k in 0..len(shares) :: xs[k] == shares[k].ID) && secret != nil
 //@   loop 2 invariant fresh(xs) && len(xs) == len(shares) && (forall k in 0..len(shares) :: xs[k] == shares[k].ID) && times != nil && 0 <= j
